@@ -89,6 +89,8 @@ func (fs *FS) fromOSPath(
 
 	// remove root fs path prefix
 	fsPath := toSeparator(separator, osPath)
+	// resolve "..", "." and empty elements first, so an unclean path can neither escape the root nor produce an invalid FS path
+	fsPath = strings.TrimPrefix(path.Clean("/"+fsPath), "/")
 	if fs.root != "" && fsPath != fs.root && !strings.HasPrefix(fsPath, fs.root+"/") {
 		return "", errInvalid
 	}
